@@ -181,7 +181,16 @@ static void enc_eval(uint64_t idx, void *ctx) {
 }
 
 /* ---------- decode oracle shared by the decode sections ---------- */
+static size_t g_dec_prelen; /* pre-existing len of the output buffer handed to the decoders */
+static void dec_check1(const uint8_t *text, size_t n);
 static void dec_check(const uint8_t *text, size_t n) {
+    g_dec_prelen = 0;
+    dec_check1(text, n);
+    g_dec_prelen = 2; /* second life of the output buffer (added after a seeded `len += result` on the vector path) */
+    dec_check1(text, n);
+    g_dec_prelen = 0;
+}
+static void dec_check1(const uint8_t *text, size_t n) {
     uint8_t ref[64];
     int why;
     long rlen = r_b64dec(text, n, ref, &why);
@@ -206,6 +215,7 @@ static void dec_check(const uint8_t *text, size_t n) {
         uint8_t *dst = (uint8_t *)malloc(dl ? dl : 1); /* exactly the predicted size */
         memset(dst, 0x5A, dl ? dl : 1);
         struct aws_byte_buf out = aws_byte_buf_from_empty_array(dst, dl);
+        out.len = g_dec_prelen <= dl ? g_dec_prelen : dl; /* a re-used output buffer: decode stores from index 0 and SETS len */
         aws_reset_error();
         int rc = d(&c, &out);
         verdict[path] = rc == AWS_OP_SUCCESS;
@@ -501,6 +511,56 @@ static void utf8_eval(uint64_t idx, void *ctx) {
     free(src);
 }
 
+
+/* ---------- UTF-8: one decoder object used for two texts in a row ----------
+ * aws_utf8_decoder_finalize "also resets the decoder" (encoding.h): whatever the first text was - valid, invalid, or cut in
+ * the middle of a sequence - the verdict and code points of the second text must be those of a fresh decoder.
+ * (added after a seeded change that skipped the reset on finalize's failure path) */
+static uint64_t utf8reuse_total(void) {
+    uint64_t k = bee_strings_upto(21, 2);
+    return k * k;
+}
+static void utf8reuse_eval(uint64_t idx, void *ctx) {
+    (void)ctx;
+    BEE_ITEM(idx);
+    uint64_t k = bee_strings_upto(21, 2);
+    uint8_t t1[4], t2[4];
+    size_t n1 = bee_string_at(idx / k, U8_ALPHA, 21, 2, t1), n2 = bee_string_at(idx % k, U8_ALPHA, 21, 2, t2);
+    V_COUNT("evaluations", 1);
+    struct cplog fresh = {{0}, 0}, reused = {{0}, 0}, first = {{0}, 0};
+    struct aws_utf8_decoder_options fo = {.on_codepoint = on_cp, .user_data = &fresh};
+    uint8_t *b2 = bee_block(t2, n2), *b1 = bee_block(t1, n1);
+    int v_fresh = aws_decode_utf8(aws_byte_cursor_from_array(b2, n2), &fo) == AWS_OP_SUCCESS;
+    struct cplog *sink = &first;
+    struct cplog **sinkp = &sink;
+    (void)sinkp;
+    struct aws_utf8_decoder_options ro = {.on_codepoint = on_cp, .user_data = &first};
+    struct aws_utf8_decoder *d = aws_utf8_decoder_new(aws_default_allocator(), &ro);
+    int ok1 = aws_utf8_decoder_update(d, aws_byte_cursor_from_array(b1, n1)) == AWS_OP_SUCCESS;
+    int fin1 = aws_utf8_decoder_finalize(d) == AWS_OP_SUCCESS; /* end of text 1, whatever it was */
+    if (ok1 && !fin1) V_COUNT("nontrivial", 1);                   /* text 1 ended in the middle of a sequence */
+    aws_utf8_decoder_destroy(d);
+    /* the callback's user_data is fixed at creation: use a second decoder object for the log of text 2 only when needed;
+     * here the same object must be re-used, so log both texts into `first` and compare its tail */
+    struct cplog both = {{0}, 0};
+    struct aws_utf8_decoder_options bo = {.on_codepoint = on_cp, .user_data = &both};
+    d = aws_utf8_decoder_new(aws_default_allocator(), &bo);
+    (void)aws_utf8_decoder_update(d, aws_byte_cursor_from_array(b1, n1));
+    (void)aws_utf8_decoder_finalize(d);
+    int before = both.n;
+    int ok2 = aws_utf8_decoder_update(d, aws_byte_cursor_from_array(b2, n2)) == AWS_OP_SUCCESS;
+    if (ok2 && aws_utf8_decoder_finalize(d)) ok2 = 0;
+    aws_utf8_decoder_destroy(d);
+    reused.n = both.n - before;
+    for (int i = 0; i < reused.n && before + i < 8; ++i) reused.cp[i] = both.cp[before + i];
+    BEE_CHECK(ok2 == v_fresh, "utf8-reuse-verdict", "text %s after text %s on the same decoder (finalize called in between): verdict %d, a fresh decoder says %d", v_show(t2, n2), v_show(t1, n1), ok2, v_fresh);
+    int same = reused.n == fresh.n;
+    for (int i = 0; same && i < reused.n && before + i < 8; ++i) same = reused.cp[i] == fresh.cp[i];
+    BEE_CHECK(same, "utf8-reuse-codepoints", "text %s after text %s on the same decoder: %d code points (first U+%X), a fresh decoder reports %d (first U+%X)", v_show(t2, n2), v_show(t1, n1), reused.n, reused.cp[0], fresh.n, fresh.cp[0]);
+    free(b1);
+    free(b2);
+}
+
 int main(int argc, char **argv) {
     v_init(argc, argv);
     aws_common_library_init(aws_default_allocator());
@@ -517,6 +577,7 @@ int main(int argc, char **argv) {
     bee_register("hexenc", hexenc_total, hexenc_eval, 10);
     bee_register("lens", lens_total, lens_eval, 10);
     bee_register("utf8", utf8_total, utf8_eval, 10);
+    bee_register("utf8reuse", utf8reuse_total, utf8reuse_eval, 10);
     v_sample("b64dec4 index 1234 = 4 symbols over {A B Q / + = NUL - 0xFF}; b64enc index = (len,pos,value,capacity-mode,start-len) odometer");
     return bee_main(argc, argv);
 }
